@@ -1,1 +1,508 @@
-(* Proofs/Poly.v -- stub, to be filled in *)
+(* Proofs/Poly.v -- lemmas about Model/Poly.v for C11 (ring and calculus laws).
+   Part 1: facts that hold over EVERY arithmetic (no laws): empty-operand shortcuts, lengths,
+           exhaustion of repeated differentiation.
+   Part 2: over a commutative ring (RingLaws as a Section hypothesis): coefficient formulae,
+           Horner evaluation as a ring homomorphism, derivative laws. *)
+From Coq Require Import List Arith Lia Bool Ring Ring_theory.
+From OV Require Import Base.Panic Base.Arith Model.Poly.
+Import ListNotations.
+
+(* ------------------------------------------------------------------ list helpers *)
+Lemma nth_map_seq {X} (f : nat -> X) n k d : k < n -> nth k (map f (seq 0 n)) d = f k.
+Proof.
+  intros H. rewrite (nth_indep _ d (f 0)) by (rewrite map_length, seq_length; lia).
+  rewrite map_nth. now rewrite seq_nth.
+Qed.
+
+Lemma nth_map_lt {X Y} (f : X -> Y) l k d d' : k < length l -> nth k (map f l) d = f (nth k l d').
+Proof.
+  intros H. rewrite (nth_indep _ d (f d')) by (rewrite map_length; lia). apply map_nth.
+Qed.
+
+Lemma list_eq_nth {X} (l1 l2 : list X) d :
+  length l1 = length l2 -> (forall k, nth k l1 d = nth k l2 d) -> l1 = l2.
+Proof. intros HL H. apply (nth_ext _ _ d d); auto. Qed.
+
+Lemma nth_error_nth_or {X} (l : list X) k d :
+  (k < length l /\ nth_error l k = Some (nth k l d)) \/ (length l <= k /\ nth_error l k = None /\ nth k l d = d).
+Proof.
+  destruct (Nat.lt_ge_cases k (length l)) as [H|H].
+  - left; split; auto. destruct (nth_error l k) eqn:E.
+    + f_equal. symmetry. now apply nth_error_nth.
+    + apply nth_error_None in E; lia.
+  - right; repeat split; auto. now apply nth_error_None. now apply nth_overflow.
+Qed.
+
+Section PolyAny.
+Context {A : Arith}.
+Notation coef p k := (nth k p (@zero A)).
+
+(* ---- the empty polynomial: neutral for + and -, absorbing for *  (by the shortcuts of the code) *)
+Lemma padd_nil_l (q : list A) : padd [] q = q.            Proof. reflexivity. Qed.
+Lemma padd_nil_r (p : list A) : padd p [] = p.            Proof. now destruct p. Qed.
+Lemma psub_nil_r (p : list A) : psub p [] = p.            Proof. now destruct p. Qed.
+Lemma psub_nil_l (q : list A) : psub [] q = pneg q.       Proof. reflexivity. Qed.
+Lemma pmul_nil_l (q : list A) : pmul [] q = [].           Proof. reflexivity. Qed.
+Lemma pmul_nil_r (p : list A) : pmul p [] = [].           Proof. now destruct p. Qed.
+Lemma peval_nil (x : A) : peval [] x = Panic Unwrap.      Proof. reflexivity. Qed.
+Lemma pderiv_nil : pderiv (@nil A) = Panic Unwrap.        Proof. reflexivity. Qed.
+
+(* ---- both operands non-empty: the general branch *)
+Lemma padd_cons a (p : list A) b q : padd (a :: p) (b :: q) =
+  map (fun i => opt_acc add (opt_acc add zero (nth_error (a :: p) i)) (nth_error (b :: q) i))
+      (seq 0 (Nat.max (length (a :: p)) (length (b :: q)))).
+Proof. reflexivity. Qed.
+Lemma psub_cons a (p : list A) b q : psub (a :: p) (b :: q) =
+  map (fun i => opt_acc sub (opt_acc add zero (nth_error (a :: p) i)) (nth_error (b :: q) i))
+      (seq 0 (Nat.max (length (a :: p)) (length (b :: q)))).
+Proof. reflexivity. Qed.
+Lemma pmul_cons a (p : list A) b q : pmul (a :: p) (b :: q) =
+  map (pmul_coeff (a :: p) (b :: q)) (seq 0 (length (a :: p) + length (b :: q) - 1)).
+Proof. reflexivity. Qed.
+
+(* ---- lengths *)
+Lemma length_pneg (p : list A) : length (pneg p) = length p.
+Proof. apply map_length. Qed.
+Lemma length_pscale (p : list A) s : length (pscale p s) = length p.
+Proof. apply map_length. Qed.
+Lemma length_padd (p q : list A) : length (padd p q) = Nat.max (length p) (length q).
+Proof.
+  destruct p as [|a p]; [reflexivity|]. destruct q as [|b q]; [cbn; lia|].
+  unfold padd. now rewrite map_length, seq_length.
+Qed.
+Lemma length_psub (p q : list A) : length (psub p q) = Nat.max (length p) (length q).
+Proof.
+  destruct p as [|a p]; [cbn; apply length_pneg|]. destruct q as [|b q]; [cbn; lia|].
+  unfold psub. now rewrite map_length, seq_length.
+Qed.
+Lemma length_pmul (p q : list A) : p <> [] -> q <> [] -> length (pmul p q) = length p + length q - 1.
+Proof.
+  destruct p as [|a p]; [congruence|]. destruct q as [|b q]; [congruence|]. intros _ _.
+  unfold pmul. now rewrite map_length, seq_length.
+Qed.
+Lemma pderiv_ok (p : list A) : p <> [] -> exists d, pderiv p = Ok d /\ length d = length p - 1.
+Proof.
+  destruct p as [|a t]; [congruence|]. intros _. eexists; split; [reflexivity|].
+  rewrite map_length, seq_length. cbn; lia.
+Qed.
+Lemma pderiv_length (p d : list A) : pderiv p = Ok d -> length d = length p - 1.
+Proof.
+  destruct p as [|a t]; [discriminate|]. intros E; injection E as <-.
+  rewrite map_length, seq_length. cbn; lia.
+Qed.
+
+(* ---- repeated differentiation: order k <= len works and leaves len-k coefficients; the order
+        len = degree+1 leaves the empty polynomial; any higher order panics (derivative of empty) *)
+Lemma pderiv_n_length (k : nat) : forall p : list A, k <= length p ->
+  exists d, pderiv_n p k = Ok d /\ length d = length p - k.
+Proof.
+  induction k as [|k IH]; intros p H; cbn.
+  - exists p; split; auto; lia.
+  - destruct (pderiv_ok p) as (d & E & L); [destruct p; cbn in *; [lia|congruence]|].
+    rewrite E; cbn. destruct (IH d) as (d' & E' & L'); [lia|]. exists d'; split; auto; lia.
+Qed.
+Lemma pderiv_n_exhausts (p : list A) : p <> [] -> pderiv_n p (length p) = Ok [].
+Proof.
+  intros _. destruct (pderiv_n_length (length p) p) as (d & E & L); [lia|].
+  rewrite E. f_equal. apply length_zero_iff_nil. lia.
+Qed.
+Lemma pderiv_n_beyond (k : nat) : forall p : list A, length p < k -> pderiv_n p k = Panic Unwrap.
+Proof.
+  induction k as [|k IH]; intros p H; [lia|]. cbn.
+  destruct p as [|a t]; [reflexivity|].
+  destruct (pderiv_ok (a :: t)) as (d & E & L); [congruence|]. rewrite E; cbn.
+  apply IH. cbn in *; lia.
+Qed.
+Lemma pderiv_at_exhausted (p : list A) x : p <> [] -> pderiv_at p x (length p) = Panic Unwrap.
+Proof. intros H. unfold pderiv_at. now rewrite pderiv_n_exhausts. Qed.
+
+End PolyAny.
+
+(* ------------------------------------------------------------------ over a commutative ring *)
+Local Open Scope arith_scope.
+Section PolyRing.
+Context {A : Arith} (RL : RingLaws A).
+Notation coef p k := (nth k p (@zero A)).
+Add Ring Aring : (rl_ring A RL).
+
+(* ---- finite sums *)
+Lemma sum_n_zero n (f : nat -> A) : (forall k, k < n -> f k = zero) -> sum_n n f = zero.
+Proof.
+  induction n as [|n IH]; cbn; intros H; auto.
+  rewrite IH by (intros; apply H; lia). rewrite H by lia. ring.
+Qed.
+Lemma sum_n_add n (f g : nat -> A) : sum_n n (fun k => f k + g k) = sum_n n f + sum_n n g.
+Proof. induction n as [|n IH]; cbn; [ring|]. rewrite IH. ring. Qed.
+Lemma sum_n_mul_l n c (f : nat -> A) : c * sum_n n f = sum_n n (fun k => c * f k).
+Proof. induction n as [|n IH]; cbn; [ring|]. rewrite <- IH. ring. Qed.
+Lemma sum_n_shift n (f : nat -> A) : sum_n (S n) f = f 0 + sum_n n (fun k => f (S k)).
+Proof.
+  induction n as [|n IH]; [cbn; ring|].
+  change (sum_n (S (S n)) f) with (sum_n (S n) f + f (S n)). rewrite IH. cbn. ring.
+Qed.
+Lemma sum_n_trunc m n (f : nat -> A) : m <= n -> (forall k, m <= k < n -> f k = zero) -> sum_n n f = sum_n m f.
+Proof.
+  induction n as [|n IH]; intros H Hz.
+  - now replace m with 0 by lia.
+  - destruct (Nat.eq_dec m (S n)) as [->|]; [reflexivity|].
+    cbn. rewrite IH by (try lia; intros; apply Hz; lia). rewrite Hz by lia. ring.
+Qed.
+Lemma sum_n_single n j (f : nat -> A) : j < n -> (forall k, k < n -> k <> j -> f k = zero) -> sum_n n f = f j.
+Proof.
+  induction n as [|n IH]; intros Hj Hz; [lia|]. cbn.
+  destruct (Nat.eq_dec j n) as [->|Hne].
+  - rewrite sum_n_zero by (intros; apply Hz; lia). ring.
+  - rewrite IH by (try lia; intros; apply Hz; lia). rewrite (Hz n) by lia. ring.
+Qed.
+
+(* ---- coefficient formulae *)
+Lemma coef_nil k : coef (@nil A) k = zero.
+Proof. now destruct k. Qed.
+
+Lemma opt_acc_nth f acc (p : list A) k :
+  opt_acc f acc (nth_error p k) = if k <? length p then f acc (coef p k) else acc.
+Proof.
+  destruct (nth_error_nth_or p k zero) as [(H & E)|(H & E & _)]; rewrite E; cbn [opt_acc].
+  - now apply Nat.ltb_lt in H as ->.
+  - now apply Nat.ltb_ge in H as ->.
+Qed.
+
+Lemma nth_padd (p q : list A) k : coef (padd p q) k = coef p k + coef q k.
+Proof.
+  destruct p as [|a p]; [rewrite padd_nil_l, coef_nil; ring|].
+  destruct q as [|b q]; [rewrite padd_nil_r, coef_nil; ring|].
+  rewrite padd_cons. set (P := a :: p); set (Q := b :: q).
+  destruct (Nat.lt_ge_cases k (Nat.max (length P) (length Q))) as [H|H].
+  - rewrite nth_map_seq by auto. rewrite !opt_acc_nth.
+    destruct (Nat.ltb_spec k (length P)), (Nat.ltb_spec k (length Q));
+      rewrite ?(nth_overflow P), ?(nth_overflow Q) by lia; ring.
+  - rewrite !nth_overflow; [ring| | |]; try lia. rewrite map_length, seq_length; lia.
+Qed.
+
+Lemma nth_pneg (p : list A) k : coef (pneg p) k = - coef p k.
+Proof.
+  unfold pneg. destruct (Nat.lt_ge_cases k (length p)) as [H|H].
+  - now apply nth_map_lt.
+  - rewrite !nth_overflow; [ring| |]; auto. now rewrite map_length.
+Qed.
+
+Lemma nth_psub (p q : list A) k : coef (psub p q) k = coef p k - coef q k.
+Proof.
+  destruct p as [|a p]; [rewrite psub_nil_l, nth_pneg, coef_nil; ring|].
+  destruct q as [|b q]; [rewrite psub_nil_r, coef_nil; ring|].
+  rewrite psub_cons. set (P := a :: p); set (Q := b :: q).
+  destruct (Nat.lt_ge_cases k (Nat.max (length P) (length Q))) as [H|H].
+  - rewrite nth_map_seq by auto. rewrite !opt_acc_nth.
+    destruct (Nat.ltb_spec k (length P)), (Nat.ltb_spec k (length Q));
+      rewrite ?(nth_overflow P), ?(nth_overflow Q) by lia; ring.
+  - rewrite !nth_overflow; [ring| | |]; try lia. rewrite map_length, seq_length; lia.
+Qed.
+
+Lemma nth_pscale (p : list A) s k : coef (pscale p s) k = coef p k * s.
+Proof.
+  unfold pscale. destruct (Nat.lt_ge_cases k (length p)) as [H|H].
+  - now apply (nth_map_lt (fun x => x * s)).
+  - rewrite !nth_overflow; [ring| |]; auto. now rewrite map_length.
+Qed.
+
+(* the convolution sum  Σ_{i<=k} p_i q_{k-i} *)
+Definition conv (p q : list A) (k : nat) : A := sum_n (S k) (fun i => coef p i * coef q (k - i)).
+
+Lemma fold_left_seq_sum (g : A -> nat -> A) (h : nat -> A) n :
+  (forall acc i, i < n -> g acc i = acc + h i) -> fold_left g (seq 0 n) zero = sum_n n h.
+Proof.
+  induction n as [|n IH]; intros H; [reflexivity|].
+  rewrite seq_S, fold_left_app. cbn. rewrite IH by (intros; apply H; lia). apply H; lia.
+Qed.
+
+Lemma pmul_coeff_conv (p q : list A) k : pmul_coeff p q k = conv p q k.
+Proof.
+  unfold pmul_coeff, conv.
+  set (h := fun i => if i <=? k then coef p i * coef q (k - i) else zero).
+  rewrite (fold_left_seq_sum _ h).
+  - (* both sums equal the sum of h over max (length p) (S k) *)
+    transitivity (sum_n (Nat.max (length p) (S k)) h).
+    + symmetry. apply sum_n_trunc; [lia|]. intros i Hi. unfold h.
+      rewrite (nth_overflow p) by lia. destruct (i <=? k); ring.
+    + transitivity (sum_n (S k) h).
+      * apply sum_n_trunc; [lia|]. intros i Hi. unfold h.
+        destruct (Nat.leb_spec i k); [lia|reflexivity].
+      * apply sum_n_ext. intros i Hi. unfold h. destruct (Nat.leb_spec i k); [reflexivity|lia].
+  - intros acc i Hi. unfold h.
+    destruct (nth_error_nth_or p i zero) as [(_ & E)|(H' & _)]; [rewrite E|lia].
+    destruct (Nat.leb_spec i k); [|ring].
+    destruct (nth_error_nth_or q (k - i) zero) as [(_ & E')|(_ & E' & Z)]; rewrite E'; [reflexivity|].
+    rewrite Z; ring.
+Qed.
+
+Lemma conv_zero_beyond (p q : list A) k : length p + length q - 1 <= k -> conv p q k = zero.
+Proof.
+  intros H. unfold conv. apply sum_n_zero. intros i Hi.
+  destruct (Nat.lt_ge_cases i (length p)) as [Hp|Hp].
+  - rewrite (nth_overflow q) by lia. ring.
+  - rewrite (nth_overflow p) by lia. ring.
+Qed.
+
+Lemma nth_pmul (p q : list A) k : coef (pmul p q) k = conv p q k.
+Proof.
+  destruct p as [|a p].
+  { rewrite pmul_nil_l, coef_nil. symmetry. apply sum_n_zero. intros i _. rewrite coef_nil. ring. }
+  destruct q as [|b q].
+  { rewrite pmul_nil_r, coef_nil. symmetry. apply sum_n_zero. intros i _. rewrite coef_nil. ring. }
+  rewrite pmul_cons. set (P := a :: p); set (Q := b :: q).
+  destruct (Nat.lt_ge_cases k (length P + length Q - 1)) as [H|H].
+  - rewrite nth_map_seq by auto. apply pmul_coeff_conv.
+  - rewrite nth_overflow by (rewrite map_length, seq_length; lia).
+    symmetry. now apply conv_zero_beyond.
+Qed.
+
+Lemma conv_cons a (p q : list A) k :
+  conv (a :: p) q k = a * coef q k + match k with 0 => zero | S k' => conv p q k' end.
+Proof.
+  unfold conv. rewrite sum_n_shift. cbn [nth]. rewrite Nat.sub_0_r. f_equal.
+  destruct k as [|k']; reflexivity.
+Qed.
+
+(* ---- n-fold sums  a + a + ... + a  (what the derivative computes instead of a numeric cast) *)
+Definition nmul (n : nat) (a : A) : A := add_times n a zero.
+
+Lemma add_times_acc n : forall (a acc : A), add_times n a acc = acc + nmul n a.
+Proof.
+  unfold nmul. induction n as [|n IH]; intros a acc; cbn; [ring|].
+  rewrite (IH a (acc + a)), (IH a (zero + a)). ring.
+Qed.
+Lemma nmul_0 a : nmul 0 a = zero.                      Proof. reflexivity. Qed.
+Lemma nmul_S n a : nmul (S n) a = a + nmul n a.
+Proof. unfold nmul at 1. cbn. rewrite add_times_acc. ring. Qed.
+Lemma nmul_plus n m a : nmul (n + m) a = nmul n a + nmul m a.
+Proof. induction n as [|n IH]; cbn [Nat.add]; rewrite ?nmul_S, ?nmul_0, ?IH; ring. Qed.
+Lemma nmul_add n a b : nmul n (a + b) = nmul n a + nmul n b.
+Proof. induction n as [|n IH]; rewrite ?nmul_S, ?nmul_0, ?IH; ring. Qed.
+Lemma nmul_mul_l n a b : nmul n (a * b) = nmul n a * b.
+Proof. induction n as [|n IH]; rewrite ?nmul_S, ?nmul_0, ?IH; ring. Qed.
+Lemma nmul_mul_r n a b : nmul n (a * b) = a * nmul n b.
+Proof. induction n as [|n IH]; rewrite ?nmul_S, ?nmul_0, ?IH; ring. Qed.
+Lemma nmul_zero n : nmul n zero = zero.
+Proof. induction n as [|n IH]; rewrite ?nmul_S, ?nmul_0, ?IH; ring. Qed.
+Lemma nmul_of_nat n a : nmul n a = nmul n one * a.
+Proof. rewrite <- nmul_mul_l. f_equal. ring. Qed.
+Lemma nmul_sum m n (f : nat -> A) : nmul m (sum_n n f) = sum_n n (fun k => nmul m (f k)).
+Proof. induction n as [|n IH]; cbn; [apply nmul_zero|]. now rewrite nmul_add, IH. Qed.
+
+(* coefficient k of the derivative is (k+1) * a_{k+1} *)
+Lemma nth_pderiv (p d : list A) k : pderiv p = Ok d -> coef d k = nmul (S k) (coef p (S k)).
+Proof.
+  destruct p as [|a t]; [discriminate|]. intros E; injection E as <-. cbn [nth].
+  destruct (Nat.lt_ge_cases k (length t)) as [H|H].
+  - rewrite nth_map_seq by auto. now rewrite Nat.add_1_r.
+  - rewrite nth_overflow by (rewrite map_length, seq_length; lia).
+    rewrite (nth_overflow t) by lia. now rewrite nmul_zero.
+Qed.
+
+(* ---- Horner evaluation *)
+Fixpoint horner (p : list A) (x : A) : A :=
+  match p with [] => zero | a :: t => a + x * horner t x end.
+Fixpoint rpow (x : A) (n : nat) : A := match n with 0 => one | S n' => x * rpow x n' end.
+
+Lemma fold_horner (x : A) (p : list A) c :
+  fold_left (fun acc a => acc * x + a) (rev p) c = horner (p ++ [c]) x.
+Proof.
+  induction p as [|a p IH]; cbn; [ring|].
+  rewrite fold_left_app. cbn. rewrite IH. ring.
+Qed.
+
+Lemma peval_horner (p : list A) x : p <> [] -> peval p x = Ok (horner p x).
+Proof.
+  intros H. destruct (exists_last H) as (p' & c & ->).
+  unfold peval. rewrite rev_app_distr. cbn. now rewrite fold_horner.
+Qed.
+
+Lemma horner_sum_ge (p : list A) x n : length p <= n ->
+  horner p x = sum_n n (fun i => coef p i * rpow x i).
+Proof.
+  revert n. induction p as [|a t IH]; intros n H.
+  - cbn [horner]. symmetry. apply sum_n_zero. intros i _. rewrite coef_nil. ring.
+  - destruct n as [|n]; [cbn in H; lia|]. cbn [horner].
+    rewrite sum_n_shift. cbn [nth rpow]. rewrite (IH n) by (cbn in H; lia).
+    rewrite sum_n_mul_l. replace (a * one) with a by ring. f_equal.
+    apply sum_n_ext. intros; ring.
+Qed.
+Lemma horner_sum (p : list A) x : horner p x = sum_n (length p) (fun i => coef p i * rpow x i).
+Proof. now apply horner_sum_ge. Qed.
+
+Lemma horner_ext (p q : list A) x : (forall k, coef p k = coef q k) -> horner p x = horner q x.
+Proof.
+  intros H. rewrite (horner_sum_ge p x (Nat.max (length p) (length q))) by lia.
+  rewrite (horner_sum_ge q x (Nat.max (length p) (length q))) by lia.
+  apply sum_n_ext. intros i _. now rewrite H.
+Qed.
+
+Lemma horner_padd (p q : list A) x : horner (padd p q) x = horner p x + horner q x.
+Proof.
+  set (n := Nat.max (length p) (length q)).
+  rewrite (horner_sum_ge (padd p q) x n) by (rewrite length_padd; subst n; lia).
+  rewrite (horner_sum_ge p x n), (horner_sum_ge q x n) by (subst n; lia).
+  rewrite <- sum_n_add. apply sum_n_ext. intros i _. rewrite nth_padd. ring.
+Qed.
+Lemma horner_psub (p q : list A) x : horner (psub p q) x = horner p x - horner q x.
+Proof.
+  set (n := Nat.max (length p) (length q)).
+  rewrite (horner_sum_ge (psub p q) x n) by (rewrite length_psub; subst n; lia).
+  rewrite (horner_sum_ge p x n), (horner_sum_ge q x n) by (subst n; lia).
+  replace (sum_n n (fun i => coef p i * rpow x i) - sum_n n (fun i => coef q i * rpow x i))
+    with (sum_n n (fun i => coef p i * rpow x i) + (- one) * sum_n n (fun i => coef q i * rpow x i)) by ring.
+  rewrite sum_n_mul_l, <- sum_n_add. apply sum_n_ext. intros i _. rewrite nth_psub. ring.
+Qed.
+Lemma horner_pneg (p : list A) x : horner (pneg p) x = - horner p x.
+Proof. induction p as [|a t IH]; cbn; [ring|]. unfold pneg in IH. rewrite IH. ring. Qed.
+Lemma horner_pscale (p : list A) s x : horner (pscale p s) x = horner p x * s.
+Proof. induction p as [|a t IH]; cbn; [ring|]. unfold pscale in IH. rewrite IH. ring. Qed.
+Lemma horner_lscale (p : list A) c x : horner (map (mul c) p) x = c * horner p x.
+Proof. induction p as [|a t IH]; cbn; [ring|]. rewrite IH. ring. Qed.
+
+Lemma horner_pmul (p q : list A) x : horner (pmul p q) x = horner p x * horner q x.
+Proof.
+  induction p as [|a p IH].
+  - rewrite pmul_nil_l. cbn. ring.
+  - transitivity (horner (padd (map (mul a) q) (zero :: pmul p q)) x).
+    + apply horner_ext. intros k. rewrite nth_pmul, conv_cons, nth_padd. f_equal.
+      * destruct (Nat.lt_ge_cases k (length q)) as [H|H].
+        -- symmetry. now apply (nth_map_lt (mul a)).
+        -- rewrite !nth_overflow; [ring| |]; auto. now rewrite map_length.
+      * destruct k as [|k']; cbn [nth]; [reflexivity|]. now rewrite nth_pmul.
+    + rewrite horner_padd, horner_lscale. cbn [horner]. rewrite IH. ring.
+Qed.
+
+(* ---- derivative laws *)
+Lemma pderiv_padd (p q dp dq : list A) : pderiv p = Ok dp -> pderiv q = Ok dq ->
+  pderiv (padd p q) = Ok (padd dp dq).
+Proof.
+  intros Ep Eq.
+  assert (Np : p <> []) by (intros ->; discriminate).
+  assert (Nq : q <> []) by (intros ->; discriminate).
+  destruct (pderiv_ok (padd p q)) as (d & E & L).
+  { intros Z. apply (f_equal (@length _)) in Z. rewrite length_padd in Z. destruct p; [congruence|cbn [length] in Z; lia]. }
+  rewrite E. f_equal. apply (list_eq_nth _ _ zero).
+  - rewrite L, !length_padd, (pderiv_length _ _ Ep), (pderiv_length _ _ Eq). lia.
+  - intros k. rewrite (nth_pderiv _ _ k E), nth_padd, nmul_add, nth_padd.
+    now rewrite (nth_pderiv _ _ k Ep), (nth_pderiv _ _ k Eq).
+Qed.
+
+Lemma pderiv_psub (p q dp dq : list A) : pderiv p = Ok dp -> pderiv q = Ok dq ->
+  forall d, pderiv (psub p q) = Ok d -> forall k, coef d k = coef (psub dp dq) k.
+Proof.
+  intros Ep Eq d E k. rewrite (nth_pderiv _ _ k E), !nth_psub.
+  rewrite (nth_pderiv _ _ k Ep), (nth_pderiv _ _ k Eq).
+  replace (coef p (S k) - coef q (S k)) with (coef p (S k) + (- one) * coef q (S k)) by ring.
+  rewrite nmul_add, nmul_mul_r. ring.
+Qed.
+
+Lemma pderiv_pscale (p dp : list A) s : pderiv p = Ok dp -> pderiv (pscale p s) = Ok (pscale dp s).
+Proof.
+  intros Ep.
+  assert (Np : p <> []) by (intros ->; discriminate).
+  destruct (pderiv_ok (pscale p s)) as (d & E & L).
+  { intros Z. apply (f_equal (@length _)) in Z. rewrite length_pscale in Z. destruct p; [congruence|cbn [length] in Z; lia]. }
+  rewrite E. f_equal. apply (list_eq_nth _ _ zero).
+  - rewrite L, !length_pscale, (pderiv_length _ _ Ep). lia.
+  - intros k. rewrite (nth_pderiv _ _ k E), !nth_pscale, nmul_mul_l.
+    now rewrite (nth_pderiv _ _ k Ep).
+Qed.
+
+(* product rule, coefficient by coefficient:
+   (k+1) Σ_{i<=k+1} p_i q_{k+1-i}  =  Σ_{i<=k} (i+1) p_{i+1} q_{k-i}  +  Σ_{i<=k} p_i (k-i+1) q_{k-i+1} *)
+Lemma product_rule_coef (p q dp dq : list A) k : pderiv p = Ok dp -> pderiv q = Ok dq ->
+  nmul (S k) (conv p q (S k)) = conv dp q k + conv p dq k.
+Proof.
+  intros Ep Eq. unfold conv.
+  set (F := fun i => coef p i * coef q (S k - i)).
+  rewrite nmul_sum.
+  (* first sum: shift the index, the new i = 0 term is zero *)
+  assert (E1 : sum_n (S k) (fun i => coef dp i * coef q (k - i)) = sum_n (S (S k)) (fun i => nmul i (F i))).
+  { rewrite (sum_n_shift (S k)). rewrite nmul_0.
+    replace (zero + sum_n (S k) (fun i => nmul (S i) (F (S i)))) with (sum_n (S k) (fun i => nmul (S i) (F (S i)))) by ring.
+    apply sum_n_ext. intros i Hi. unfold F. rewrite (nth_pderiv _ _ i Ep), nmul_mul_l. reflexivity. }
+  (* second sum: one more term, which is zero *)
+  assert (E2 : sum_n (S k) (fun i => coef p i * coef dq (k - i)) = sum_n (S (S k)) (fun i => nmul (S k - i) (F i))).
+  { change (sum_n (S (S k)) (fun i => nmul (S k - i) (F i)))
+      with (sum_n (S k) (fun i => nmul (S k - i) (F i)) + nmul (S k - S k) (F (S k))).
+    rewrite Nat.sub_diag, nmul_0.
+    replace (sum_n (S k) (fun i => nmul (S k - i) (F i)) + zero) with (sum_n (S k) (fun i => nmul (S k - i) (F i))) by ring.
+    apply sum_n_ext. intros i Hi. unfold F. rewrite (nth_pderiv _ _ (k - i) Eq), nmul_mul_r.
+    replace (S (k - i)) with (S k - i)%nat by lia. reflexivity. }
+  rewrite E1, E2, <- sum_n_add. apply sum_n_ext. intros i Hi.
+  rewrite <- nmul_plus. f_equal. lia.
+Qed.
+
+Lemma pderiv_pmul_coef (p q dp dq d : list A) : pderiv p = Ok dp -> pderiv q = Ok dq ->
+  pderiv (pmul p q) = Ok d -> forall k, coef d k = coef (padd (pmul dp q) (pmul p dq)) k.
+Proof.
+  intros Ep Eq E k. rewrite (nth_pderiv _ _ k E), nth_padd, !nth_pmul.
+  now apply product_rule_coef.
+Qed.
+
+Lemma pderiv_pmul (p q dp dq : list A) : pderiv p = Ok dp -> pderiv q = Ok dq ->
+  pderiv (pmul p q) = Ok (padd (pmul dp q) (pmul p dq)).
+Proof.
+  intros Ep Eq.
+  assert (Np : p <> []) by (intros ->; discriminate).
+  assert (Nq : q <> []) by (intros ->; discriminate).
+  assert (Lm := length_pmul p q Np Nq).
+  destruct (pderiv_ok (pmul p q)) as (d & E & L).
+  { intros Z. rewrite Z in Lm. destruct p, q; cbn in *; try congruence; lia. }
+  rewrite E. f_equal. apply (list_eq_nth _ _ zero).
+  - rewrite L, Lm, length_padd.
+    assert (Lp := pderiv_length _ _ Ep). assert (Lq := pderiv_length _ _ Eq).
+    destruct dp as [|x dp']; destruct dq as [|y dq'].
+    + rewrite pmul_nil_l, pmul_nil_r. cbn in *. lia.
+    + rewrite pmul_nil_l. cbn [length Nat.max]. rewrite length_pmul by congruence. cbn in *. lia.
+    + rewrite pmul_nil_r. rewrite length_pmul by congruence. cbn in *. lia.
+    + rewrite !length_pmul by congruence. cbn in *. lia.
+  - now apply pderiv_pmul_coef.
+Qed.
+
+(* ---- evaluation of results: total on non-empty operands, and a ring homomorphism *)
+Lemma padd_nonempty (p q : list A) : p <> [] -> padd p q <> [].
+Proof.
+  intros Hp Z. apply (f_equal (@length _)) in Z. rewrite length_padd in Z.
+  destruct p; [congruence|cbn [length] in Z; lia].
+Qed.
+Lemma psub_nonempty (p q : list A) : p <> [] -> psub p q <> [].
+Proof.
+  intros Hp Z. apply (f_equal (@length _)) in Z. rewrite length_psub in Z.
+  destruct p; [congruence|cbn [length] in Z; lia].
+Qed.
+Lemma pmul_nonempty (p q : list A) : p <> [] -> q <> [] -> pmul p q <> [].
+Proof.
+  intros Hp Hq Z. apply (f_equal (@length _)) in Z. rewrite length_pmul in Z by auto.
+  destruct p; [congruence|]. destruct q; [congruence|]. cbn [length] in Z; lia.
+Qed.
+
+Lemma peval_padd_lemma (p q : list A) x : p <> [] -> q <> [] ->
+  exists a b, peval p x = Ok a /\ peval q x = Ok b /\ peval (padd p q) x = Ok (a + b).
+Proof.
+  intros Hp Hq. exists (horner p x), (horner q x).
+  rewrite !peval_horner by auto using padd_nonempty. now rewrite horner_padd.
+Qed.
+Lemma peval_psub_lemma (p q : list A) x : p <> [] -> q <> [] ->
+  exists a b, peval p x = Ok a /\ peval q x = Ok b /\ peval (psub p q) x = Ok (a - b).
+Proof.
+  intros Hp Hq. exists (horner p x), (horner q x).
+  rewrite !peval_horner by auto using psub_nonempty. now rewrite horner_psub.
+Qed.
+Lemma peval_pmul_lemma (p q : list A) x : p <> [] -> q <> [] ->
+  exists a b, peval p x = Ok a /\ peval q x = Ok b /\ peval (pmul p q) x = Ok (a * b).
+Proof.
+  intros Hp Hq. exists (horner p x), (horner q x).
+  rewrite !peval_horner by auto using pmul_nonempty. now rewrite horner_pmul.
+Qed.
+Lemma peval_pneg_pscale_lemma (p : list A) x s : p <> [] ->
+  exists a, peval p x = Ok a /\ peval (pneg p) x = Ok (- a) /\ peval (pscale p s) x = Ok (a * s).
+Proof.
+  intros Hp. exists (horner p x).
+  assert (pneg p <> []) by (destruct p; [congruence|discriminate]).
+  assert (pscale p s <> []) by (destruct p; [congruence|discriminate]).
+  rewrite !peval_horner by auto. now rewrite horner_pneg, horner_pscale.
+Qed.
+
+End PolyRing.
